@@ -10,6 +10,9 @@ mod props;
 
 use util::Args;
 
+#[global_allocator]
+static GLOBAL: util::CountingAlloc = util::CountingAlloc;
+
 fn main() {
 	let args = Args::parse();
 	util::install_panic_hook();
